@@ -279,6 +279,65 @@ def run(repo):
                                          'and the same key gets the first one\'s value'
                                          % (fi.fq, ntext(st_.value)[:40], cont, ntext(key), extra), repo.where(fi, st_),
                                          {'props': ['C03', 'C01', 'C13', 'C12']}))
+    # ---------------------------------------------------------------- (h) the compile loops visit every scenario
+    # ro_to_roc / dro_to_roc / rule_var write one block of the reformulation per scenario; a loop variable that
+    # indexes the per-scenario rule list (drule_list[s]) must range over range(num_scen) on every path -- a loop
+    # over "one representative scenario per event" compiles the constraint for that scenario only.
+    from rsx.webs import reaching_values as _reach
+    from .common import expand_locals as _xl2, single_defs as _sd2
+    n_loops = 0
+    for fq in ('dro.Model.ro_to_roc', 'dro.Model.dro_to_roc', 'dro.Model.rule_var'):
+        fi = repo.func(fq)
+        res.functions.add(fq)
+        reach = _reach(fi.node)
+        sdefs = _sd2(fi.node)
+
+        def full_range(e, depth=0):
+            orig = e
+            e = _xl2(fi.node, e, defs=sdefs)
+            if isinstance(orig, ast.Name) and isinstance(e, ast.Name):
+                e = orig                       # (kept by identity: the reaching definitions are keyed by node)
+            t = ntext(e).replace('self.', '')
+            if t in ('range(num_scen)', 'range(0, num_scen)'):
+                return True
+            if isinstance(e, ast.Call) and call_name(e) == 'enumerate' and e.args:
+                return None            # over a per-scenario list: as long as that list is
+            if isinstance(e, ast.Name) and depth < 3:
+                vals = reach.get(id(e))
+                if vals and all(v is not None for v in vals):
+                    rs = [full_range(v, depth + 1) for v in vals]
+                    if all(r is True for r in rs):
+                        return True
+                    if any(r is False for r in rs):
+                        return False
+                return None
+            if isinstance(e, ast.Call) and call_name(e) in ('sorted', 'list', 'set', 'np.unique') or \
+                    isinstance(e, (ast.ListComp, ast.GeneratorExp, ast.List, ast.Tuple, ast.Subscript)):
+                return False           # a selection of scenarios
+            return None
+        for n in walk_no_nested(fi.node):
+            if isinstance(n, ast.For) and isinstance(n.target, ast.Name):
+                sv = n.target.id
+                indexes_rules = any(isinstance(x, ast.Subscript) and isinstance(x.slice, ast.Name) and x.slice.id == sv and
+                                    ntext(x.value).split('.')[-1] in ('drule_list', 'var_ev_list', 'ev_list')
+                                    for x in ast.walk(n))
+                if not indexes_rules:
+                    continue
+                n_loops += 1
+                verdict = full_range(n.iter)
+                if verdict is None:
+                    raise AnalysisError('%s: the scenario loop `for %s in %s` ranges over something the rule does not '
+                                        'interpret' % (fq, sv, ntext(n.iter)[:40]))
+                res.inst({'function': fq, 'scenario loop': ntext(n.iter)[:40], 'all_scenarios': verdict}, verdict)
+                if not verdict:
+                    res.fail(Finding(RULE, fq, 'scenario loop does not visit every scenario',
+                                     '%s writes the per-scenario blocks in `for %s in %s`, which on some path is a '
+                                     'selection of scenarios and not range(num_scen): the constraint is compiled for '
+                                     'the selected scenarios only and silently dropped for the others'
+                                     % (fq, sv, ntext(n.iter)[:40]), repo.where(fi, n),
+                                     {'props': ['C06', 'C03', 'C12', 'C13']}))
+    if n_loops < 3:
+        raise AnalysisError('R27(h): only %d scenario loops over the rule list found' % n_loops)
     # ---------------------------------------------------------------- (b)
     n_calls = 0
     for fi in repo.all_functions():
